@@ -8,9 +8,11 @@ def _build():
     bindir = vlib.ensure_dir(os.path.join(vlib.WORK, 'bin'))
     exe = os.path.join(bindir, 'gotrans')
     stamp = os.path.join(bindir, 'gotrans.stamp')
-    key = vlib.hash_files([tool_src])
+    # main.go plus the extension files ext_*.go of the same package (one per feature area)
+    exts = sorted(f for f in os.listdir(os.path.dirname(tool_src)) if f.startswith('ext_') and f.endswith('.go'))
+    key = vlib.hash_files([tool_src] + [os.path.join(os.path.dirname(tool_src), f) for f in exts])
     if not (os.path.exists(exe) and os.path.exists(stamp) and open(stamp).read() == key):
-        rc, out, _ = vlib.sh(['go', 'build', '-o', exe, 'main.go'], cwd=os.path.dirname(tool_src),
+        rc, out, _ = vlib.sh(['go', 'build', '-o', exe, 'main.go'] + exts, cwd=os.path.dirname(tool_src),
                              env=dict(vlib.GOENV, GOFLAGS='', GO111MODULE='off'), timeout=300)
         if rc != 0:
             raise RuntimeError('gotrans build failed: ' + out[-2000:])
